@@ -37,6 +37,10 @@ def make_case(rng, edges, D, style=None, mass_mode=None, ext_mode=None, want=Non
         else:
             unused = [v for v in range(256) if v not in verts]
             ext = rng.sample(verts, min(1, len(verts))) + [rng.choice(unused)]
+        if ext and rng.random() < 0.12:
+            # one entry per external LEG: a vertex carrying two legs is listed twice (the set of external vertices is what matters)
+            ext = ext + [rng.choice(ext)]
+            rng.shuffle(ext)
         weights = [gen.weight_choice(rng, style) for _ in range(n)]
         if rng.random() < 0.5:
             # scale weights so that the overall dod is a small positive number (raises acceptance)
